@@ -84,6 +84,23 @@ func generate(w *mon.W) {
 		}
 		w.Do(s, func(r *mon.R) { Check(s, r) })
 	}
+	// long runs: every lexeme (tokens of every kind, unrecognisable pieces,
+	// white space, comments) repeated around the counts a limit, a buffer or a
+	// table may be sized at, tight and spaced, followed by ordinary tokens
+	for _, lx := range append(append([]string{}, lexemes...), "#", "\x00", "é", "\xff", "!", "..", " ", "\n", "// c\n", "0x", "'", "`") {
+		for _, n := range []int{255, 256, 257, 999, 1000, 1001, 1023, 1024, 1025, 4095, 4096, 4097, 65535, 65536, 65537} {
+			if n > 5000 && (w.Quick() || len(lx) > 4) {
+				continue
+			}
+			for _, sep := range []string{"", " "} {
+				s := strings.Repeat(lx+sep, n) + " a == 1 'z'"
+				w.Do(s, func(r *mon.R) { Check(s, r) })
+			}
+		}
+		if w.Stopped() {
+			return
+		}
+	}
 	// prefixes of corpus programs: end of input in every scanner state
 	for _, p := range gen.Seeds() {
 		for i := 1; i <= len(p); i++ {
